@@ -452,4 +452,484 @@ theorem filter_terminals_nums (t : Tree) (p : Tree → Bool) (hN : Numbered t) :
     rw [← mem_yield]
     exact List.mem_map_of_mem (List.mem_filter.1 hl).1
 
+/-! ### `modifyLeaf` / `substituteTerminals` -/
+
+/-- what `modifyLeaf k g` does to one token -/
+def modTok (k : Nat) (g : Fields → Fields) (a : Tree) : Tree := if a.num = k then a.setFields g else a
+
+@[simp] theorem num_setFields (a : Tree) (g : Fields → Fields) : (a.setFields g).num = a.num := by
+  cases a <;> rfl
+
+@[simp] theorem num_modTok (k : Nat) (g : Fields → Fields) (a : Tree) : (modTok k g a).num = a.num := by
+  unfold modTok; split <;> simp
+
+mutual
+theorem modifyLeaf_leaves (k : Nat) (g : Fields → Fields) : (t : Tree) →
+    (modifyLeaf k g t).leaves = t.leaves.map (modTok k g)
+  | leaf n f => by
+    by_cases h : n = k <;> simp [modifyLeaf, leaves, modTok, h, setFields]
+  | node f ks => by
+    simp only [modifyLeaf, leaves]; exact modifyLeafL_leaves k g ks
+theorem modifyLeafL_leaves (k : Nat) (g : Fields → Fields) : (ks : List Tree) →
+    leavesL (modifyLeafL k g ks) = (leavesL ks).map (modTok k g)
+  | [] => by simp [modifyLeafL, leavesL]
+  | t :: ts => by
+    simp only [modifyLeafL, leavesL, List.map_append, modifyLeaf_leaves k g t, modifyLeafL_leaves k g ts]
+end
+
+theorem modifyLeaf_isLeaf (k : Nat) (g : Fields → Fields) (t : Tree) :
+    (modifyLeaf k g t).isLeaf = t.isLeaf := by
+  cases t with
+  | leaf n f => simp only [modifyLeaf]; split <;> rfl
+  | node f ks => rfl
+
+theorem modifyLeaf_leafNums (k : Nat) (g : Fields → Fields) (t : Tree) :
+    (modifyLeaf k g t).leafNums = t.leafNums := by
+  simp [leafNums, modifyLeaf_leaves, Function.comp_def]
+
+theorem modifyLeaf_terminals (k : Nat) (g : Fields → Fields) (t : Tree) :
+    (modifyLeaf k g t).terminals = t.terminals.map (modTok k g) := by
+  unfold terminals
+  rw [modifyLeaf_leaves]
+  exact sortBy_map num num (modTok k g) (num_modTok k g) _
+
+theorem modifyLeaf_yield (k : Nat) (g : Fields → Fields) (t : Tree) :
+    (modifyLeaf k g t).yield = t.yield := by
+  simp [yield, modifyLeaf_terminals, Function.comp_def]
+
+theorem modifyLeaf_numbered (k : Nat) (g : Fields → Fields) (t : Tree) (h : Numbered t) :
+    Numbered (modifyLeaf k g t) :=
+  ⟨by rw [modifyLeaf_isLeaf]; exact h.1, by rw [modifyLeaf_yield, modifyLeaf_leafNums]; exact h.2⟩
+
+/-- substituting token `k` changes position `k` of the sentence -/
+theorem modifyLeaf_sentence (k : Nat) (w : Str) (pos : Option Str) (t : Tree) (h : Numbered t) :
+    (modifyLeaf k (fun f => { f with word := some w, label := pos.getD f.label }) t).sentence =
+      t.sentence.zipIdx.map fun (tok, i) => if i + 1 == k then (some w, pos.getD tok.2) else tok := by
+  rw [sentence_eq, modifyLeaf_terminals, sentence_eq]
+  exact map_key_eq_zipIdx num tok _ (fun tk => (some w, pos.getD tk.2)) k
+    (by intro a; cases a <;> rfl) t.terminals 0 h.terminals_num
+
+theorem substitute_aux (n : Nat) : ∀ (reqs : List (Nat × Str × Option Str)) (cur : Tree), Numbered cur →
+    (reqs.foldl (fun cur (k, w, pos) =>
+      if k ≥ 1 && k ≤ n then
+        modifyLeaf k (fun f => { f with word := some w, label := pos.getD f.label }) cur
+      else cur) cur).sentence =
+    reqs.foldl (fun cur (k, w, p) =>
+      if k ≥ 1 && k ≤ n then
+        cur.zipIdx.map fun (tok, i) => if i + 1 == k then (some w, p.getD tok.2) else tok
+      else cur) cur.sentence
+  | [], _, _ => rfl
+  | (k, w, pos) :: rest, cur, h => by
+    simp only [List.foldl_cons]
+    by_cases hc : (k ≥ 1 && k ≤ n) = true
+    · simp only [hc, if_true]
+      rw [substitute_aux n rest _ (modifyLeaf_numbered k _ cur h), modifyLeaf_sentence k w pos cur h]
+    · simp only [hc]
+      exact substitute_aux n rest cur h
+
+theorem substitute_leafNums_aux (n : Nat) : ∀ (reqs : List (Nat × Str × Option Str)) (cur : Tree),
+    (reqs.foldl (fun cur (k, w, pos) =>
+      if k ≥ 1 && k ≤ n then
+        modifyLeaf k (fun f => { f with word := some w, label := pos.getD f.label }) cur
+      else cur) cur).leafNums = cur.leafNums
+  | [], _ => rfl
+  | (k, w, pos) :: rest, cur => by
+    simp only [List.foldl_cons]
+    by_cases hc : (k ≥ 1 && k ≤ n) = true
+    · simp only [hc, if_true]
+      rw [substitute_leafNums_aux n rest, modifyLeaf_leafNums]
+    · simp only [hc]
+      exact substitute_leafNums_aux n rest cur
+
+/-! ### `mapNums` / `insertStep` -/
+
+/-- a token renumbered by `g` -/
+def renum (g : Nat → Nat) : Tree → Tree
+  | leaf n f => leaf (g n) f
+  | node f ks => node f ks
+
+theorem num_renum (g : Nat → Nat) (hg : g 0 = 0) (x : Tree) : (renum g x).num = g x.num := by
+  cases x <;> simp [renum, hg]
+
+@[simp] theorem fields_renum (g : Nat → Nat) (x : Tree) : (renum g x).fields = x.fields := by
+  cases x <;> simp [renum]
+
+@[simp] theorem tok_renum (g : Nat → Nat) (x : Tree) : tok (renum g x) = tok x := by
+  simp [tok]
+
+mutual
+theorem mapNums_leaves (g : Nat → Nat) : (t : Tree) → (mapNums g t).leaves = t.leaves.map (renum g)
+  | leaf n f => by simp [mapNums, leaves, renum]
+  | node f ks => by simp only [mapNums, leaves]; exact mapNumsL_leaves g ks
+theorem mapNumsL_leaves (g : Nat → Nat) : (ks : List Tree) →
+    leavesL (mapNumsL g ks) = (leavesL ks).map (renum g)
+  | [] => by simp [mapNumsL, leavesL]
+  | t :: ts => by
+    simp only [mapNumsL, leavesL, List.map_append, mapNums_leaves g t, mapNumsL_leaves g ts]
+end
+
+mutual
+theorem mapNums_noEmpty (g : Nat → Nat) : (t : Tree) → (mapNums g t).noEmpty = t.noEmpty
+  | leaf n f => by simp [mapNums, noEmpty]
+  | node f ks => by
+    have e : (mapNumsL g ks).isEmpty = ks.isEmpty := by cases ks <;> simp [mapNumsL]
+    simp only [mapNums, noEmpty, mapNumsL_noEmpty g ks, e]
+theorem mapNumsL_noEmpty (g : Nat → Nat) : (ks : List Tree) → noEmptyL (mapNumsL g ks) = noEmptyL ks
+  | [] => by simp [mapNumsL, noEmptyL]
+  | t :: ts => by simp only [mapNumsL, noEmptyL, mapNums_noEmpty g t, mapNumsL_noEmpty g ts]
+end
+
+theorem noEmptyL_append (a b : List Tree) : noEmptyL (a ++ b) = (noEmptyL a && noEmptyL b) := by
+  induction a with
+  | nil => simp [noEmptyL]
+  | cons x xs ih => simp [noEmptyL, ih, Bool.and_assoc]
+
+/-- the renumbering done by `insert_terminals` -/
+def up (k m : Nat) : Nat := if m ≥ k then m + 1 else m
+
+theorem up_le_iff (k a b : Nat) : up k a ≤ up k b ↔ a ≤ b := by unfold up; split <;> split <;> omega
+theorem up_inj (k a b : Nat) (h : up k a = up k b) : a = b := by
+  unfold up at h; split at h <;> split at h <;> omega
+theorem up_ne (k a : Nat) : up k a ≠ k := by unfold up; split <;> omega
+theorem up_zero (k : Nat) (h : 1 ≤ k) : up k 0 = 0 := by unfold up; split <;> omega
+
+theorem take_nums (T : List Tree) (n j : Nat) (hT : T.map num = List.range' 1 n) (hj : j ≤ n) :
+    (T.take j).map num = List.range' 1 j := by
+  rw [List.map_take, hT, List.take_range'_of_length_ge hj]
+
+theorem drop_nums (T : List Tree) (n j : Nat) (hT : T.map num = List.range' 1 n) :
+    (T.drop j).map num = List.range' (1 + j) (n - j) := by
+  rw [List.map_drop, hT, List.drop_range']; simp
+
+theorem sortBy_insert_new (L : List Tree) (k : Nat) (x : Tree) (hx : x.num = k)
+    (hL : (sortBy num L).map num = List.range' 1 L.length) (hk1 : 1 ≤ k) (hk2 : k ≤ L.length + 1) :
+    sortBy num (L.map (renum (up k)) ++ [x]) =
+      ((sortBy num L).take (k - 1)).map (renum (up k)) ++
+        x :: ((sortBy num L).drop (k - 1)).map (renum (up k)) := by
+  have hnum : ∀ a, (renum (up k) a).num = up k a.num := num_renum _ (up_zero k hk1)
+  have hLn : (L.map num).Nodup := by
+    have hp := (sortBy_perm num L).map num
+    rw [hL] at hp
+    exact hp.nodup_iff.1 List.nodup_range'
+  have hnd : ((L.map (renum (up k)) ++ [x]).map num).Nodup := by
+    rw [List.map_append, List.nodup_append]
+    refine ⟨?_, by simp, ?_⟩
+    · rw [List.Nodup, List.pairwise_map] at hLn
+      rw [List.Nodup, List.pairwise_map, List.pairwise_map]
+      exact hLn.imp (fun h e => h (up_inj k _ _ (by rw [← hnum, ← hnum]; exact e)))
+    · intro a ha b hb
+      obtain ⟨y, hy, rfl⟩ := List.mem_map.1 ha
+      obtain ⟨z, _, rfl⟩ := List.mem_map.1 hy
+      simp only [List.map_cons, List.map_nil, List.mem_singleton] at hb
+      rw [hb, hx, hnum]
+      exact up_ne k _
+  rw [sortBy_perm_eq num _ (x :: L.map (renum (up k))) (List.perm_append_singleton _ _) hnd]
+  simp only [sortBy]
+  rw [sortBy_map_mono num num (renum (up k)) L
+    (fun a _ b _ => by rw [hnum, hnum]; exact up_le_iff k _ _)]
+  have hsplit : (sortBy num L).map (renum (up k)) =
+      ((sortBy num L).take (k - 1)).map (renum (up k)) ++ ((sortBy num L).drop (k - 1)).map (renum (up k)) := by
+    rw [← List.map_append, List.take_append_drop]
+  rw [hsplit, insertBy_append_of_lt, insertBy_of_le]
+  · intro y hy
+    obtain ⟨l, hl, rfl⟩ := List.mem_map.1 hy
+    have h1 : l.num ∈ List.range' (1 + (k - 1)) (L.length - (k - 1)) := by
+      rw [← drop_nums _ _ _ hL]; exact List.mem_map_of_mem hl
+    rw [List.mem_range'_1] at h1
+    rw [hnum, hx]; unfold up; split <;> omega
+  · intro y hy
+    obtain ⟨l, hl, rfl⟩ := List.mem_map.1 hy
+    have h1 : l.num ∈ List.range' 1 (k - 1) := by
+      rw [← take_nums _ _ _ hL (by omega)]; exact List.mem_map_of_mem hl
+    rw [List.mem_range'_1] at h1
+    rw [hnum, hx]; unfold up; split <;> omega
+
+/-- the token `insert_terminals` creates -/
+def newTok (k : Nat) (w pos : Str) : Tree :=
+  leaf k { label := pos, word := some w, morph := some DEFAULT_MORPH,
+           lemma := some DEFAULT_LEMMA, edge := some DEFAULT_EDGE }
+
+theorem insertStep_invalid (cur : Tree) (k : Nat) (w pos : Str)
+    (h : k = 0 ∨ k > cur.terminals.length + 1) : insertStep cur (k, w, pos) = cur := by
+  rcases h with h | h <;> simp [insertStep, h]
+
+theorem insertStep_valid (f : Fields) (ks : List Tree) (k : Nat) (w pos : Str) (h1 : 1 ≤ k)
+    (h2 : k ≤ (node f ks).terminals.length + 1) :
+    insertStep (node f ks) (k, w, pos) = node f (mapNumsL (up k) ks ++ [newTok k w pos]) := by
+  have e1 : ¬ (k > (node f ks).terminals.length + 1) := by omega
+  have e2 : k ≠ 0 := by omega
+  have e3 : (k == 0) = false := by simpa using e2
+  simp only [insertStep, e1, e3, decide_false, Bool.or_self, Bool.false_eq_true, if_false,
+    mapNums, insertStep.appendToRoot']
+  rfl
+
+theorem insertStep_terminals (f : Fields) (ks : List Tree) (k : Nat) (w pos : Str)
+    (hN : Numbered (node f ks)) (h1 : 1 ≤ k) (h2 : k ≤ (node f ks).terminals.length + 1) :
+    (insertStep (node f ks) (k, w, pos)).terminals =
+      ((node f ks).terminals.take (k - 1)).map (renum (up k)) ++
+        newTok k w pos :: ((node f ks).terminals.drop (k - 1)).map (renum (up k)) := by
+  rw [insertStep_valid f ks k w pos h1 h2]
+  unfold terminals
+  rw [leaves_node', leaves_node', leavesL_append, mapNumsL_leaves]
+  have hL := hN.terminals_num
+  rw [terminals, leaves_node', sortBy_length] at hL
+  rw [terminals, leaves_node', sortBy_length] at h2
+  exact sortBy_insert_new (leavesL ks) k (newTok k w pos) rfl hL h1 h2
+
+theorem insertStep_sentence_valid (f : Fields) (ks : List Tree) (k : Nat) (w pos : Str)
+    (hN : Numbered (node f ks)) (h1 : 1 ≤ k) (h2 : k ≤ (node f ks).terminals.length + 1) :
+    (insertStep (node f ks) (k, w, pos)).sentence =
+      (node f ks).sentence.take (k - 1) ++ [(some w, pos)] ++ (node f ks).sentence.drop (k - 1) := by
+  rw [sentence_eq, insertStep_terminals f ks k w pos hN h1 h2, sentence_eq]
+  simp only [List.map_append, List.map_cons, List.map_map, List.map_take, List.map_drop,
+    List.append_assoc, List.singleton_append]
+  have e : tok ∘ renum (up k) = tok := by funext x; simp
+  rw [e]
+  rfl
+
+theorem insertStep_yield_valid (f : Fields) (ks : List Tree) (k : Nat) (w pos : Str)
+    (hN : Numbered (node f ks)) (h1 : 1 ≤ k) (h2 : k ≤ (node f ks).terminals.length + 1) :
+    (insertStep (node f ks) (k, w, pos)).yield = List.range' 1 ((node f ks).terminals.length + 1) := by
+  have hnum : ∀ a, (renum (up k) a).num = up k a.num := num_renum _ (up_zero k h1)
+  have hT := hN.terminals_num
+  rw [yield, insertStep_terminals f ks k w pos hN h1 h2]
+  simp only [List.map_append, List.map_cons, List.map_map]
+  have e : num ∘ renum (up k) = up k ∘ num := by funext x; simp [hnum]
+  rw [e, ← List.map_map, ← List.map_map, take_nums _ _ _ hT (by omega), drop_nums _ _ _ hT]
+  have e1 : (List.range' 1 (k - 1)).map (up k) = List.range' 1 (k - 1) := by
+    conv => rhs; rw [← List.map_id (List.range' 1 (k - 1))]
+    apply List.map_congr_left
+    intro a ha
+    rw [List.mem_range'_1] at ha
+    unfold up; split <;> simp <;> omega
+  have e2 : (List.range' (1 + (k - 1)) ((node f ks).terminals.length - (k - 1))).map (up k) =
+      List.range' (k + 1) ((node f ks).terminals.length - (k - 1)) := by
+    have e' : (List.range' (1 + (k - 1)) ((node f ks).terminals.length - (k - 1))).map (up k) =
+        (List.range' (1 + (k - 1)) ((node f ks).terminals.length - (k - 1))).map (1 + ·) := by
+      apply List.map_congr_left
+      intro a ha
+      rw [List.mem_range'_1] at ha
+      unfold up; split <;> omega
+    rw [e', List.map_add_range']
+    congr 1
+    omega
+  rw [e1, e2]
+  have e3 : (newTok k w pos).num :: List.range' (k + 1) ((node f ks).terminals.length - (k - 1)) =
+      List.range' (1 + (k - 1)) ((node f ks).terminals.length - (k - 1) + 1) := by
+    have : 1 + (k - 1) = k := by omega
+    rw [this, List.range'_succ]; rfl
+  rw [e3, List.range'_append_1]
+  congr 1
+  omega
+
+theorem insertStep_leafNums_length (f : Fields) (ks : List Tree) (k : Nat) (w pos : Str) (h1 : 1 ≤ k)
+    (h2 : k ≤ (node f ks).terminals.length + 1) :
+    (insertStep (node f ks) (k, w, pos)).leafNums.length = (node f ks).terminals.length + 1 := by
+  rw [insertStep_valid f ks k w pos h1 h2, terminals_length, leafNums_node', leafNums_node',
+    leavesL_append, mapNumsL_leaves]
+  simp [leavesL, newTok, leaves]
+
+theorem insertStep_WF_valid (f : Fields) (ks : List Tree) (k : Nat) (w pos : Str)
+    (h : WF (node f ks) = true) (h1 : 1 ≤ k) (h2 : k ≤ (node f ks).terminals.length + 1) :
+    WF (insertStep (node f ks) (k, w, pos)) = true := by
+  have hN := Numbered_of_WF _ h
+  have hy := insertStep_yield_valid f ks k w pos hN h1 h2
+  have hl := insertStep_leafNums_length f ks k w pos h1 h2
+  rw [WF_iff]
+  refine ⟨?_, ?_, ?_, ?_⟩
+  · rw [insertStep_valid f ks k w pos h1 h2]; rfl
+  · rw [insertStep_valid f ks k w pos h1 h2]
+    have hne := WF_noEmpty _ h
+    simp only [noEmpty, Bool.and_eq_true] at hne
+    simp only [noEmpty, noEmptyL_append, mapNumsL_noEmpty, hne.2, newTok, noEmptyL]
+    simp
+  · rw [← Nav.yield_eq, hy, hl]
+  · intro e
+    rw [e] at hl
+    simp at hl
+
+/-! ### `findLeaf` after an edit; `ptb_delete_traces` -/
+
+theorem find?_congr' {α} (p q : α → Bool) (l : List α) (h : ∀ a ∈ l, p a = q a) :
+    l.find? p = l.find? q := by
+  induction l with
+  | nil => rfl
+  | cons x xs ih =>
+    simp only [List.find?_cons, h x List.mem_cons_self]
+    rw [ih (fun a ha => h a (List.mem_cons_of_mem _ ha))]
+
+theorem findLeaf_of_mem_nodup (t : Tree) (l : Tree) (hn : t.leafNums.Nodup) (hl : l ∈ t.leaves) :
+    t.findLeaf l.num = some l := by
+  unfold findLeaf
+  cases hf : t.leaves.find? (fun a => a.num == l.num) with
+  | none =>
+    rw [List.find?_eq_none] at hf
+    exact absurd (by simp) (hf l hl)
+  | some y =>
+    have h1 := List.mem_of_find?_eq_some hf
+    have h2 : y.num = l.num := by simpa using List.find?_some hf
+    rw [eq_of_key_eq_of_nodup num t.leaves hn y h1 l hl h2]
+
+theorem findLeaf_modifyLeaf_ne (k c : Nat) (g : Fields → Fields) (t : Tree) (h : c ≠ k) :
+    (modifyLeaf k g t).findLeaf c = t.findLeaf c := by
+  unfold findLeaf
+  rw [modifyLeaf_leaves, List.find?_map]
+  have e : (fun (l : Tree) => l.num == c) ∘ modTok k g = fun l => l.num == c := by
+    funext x; simp
+  rw [e]
+  cases hf : t.leaves.find? (fun l => l.num == c) with
+  | none => rfl
+  | some y =>
+    have h2 : y.num = c := by simpa using List.find?_some hf
+    simp [modTok, h2, h]
+
+theorem findLeaf_deleteTerminal_gt (a c : Nat) (t : Tree) (ht : t.isLeaf = false) (h : a < c) :
+    (deleteTerminal t a).findLeaf (c - 1) = (t.findLeaf c).map (shiftTok a) := by
+  unfold findLeaf
+  rw [deleteTerminal_leaves t a ht, List.find?_map, List.find?_filter]
+  congr 1
+  apply find?_congr'
+  intro x _
+  simp only [Function.comp_apply, num_shiftTok]
+  rw [Bool.eq_iff_iff]
+  simp only [bne_iff_ne, ne_eq, beq_iff_eq, Bool.decide_and, Bool.and_eq_true, decide_eq_true_eq]
+  unfold sh
+  split <;> omega
+
+/-- the trace token is deleted (not kept) -/
+def delP (o : TraceOpts) (l : Tree) : Bool :=
+  !(o.keepall || o.keep.contains (traceLabel o (l.fields.word.getD [])))
+
+@[simp] theorem delP_shiftTok (o : TraceOpts) (a : Nat) (x : Tree) : delP o (shiftTok a x) = delP o x := by
+  simp [delP]
+
+theorem traces_aux (o : TraceOpts) : ∀ (nums : List Nat) (t : Tree) (off : Nat), Numbered t →
+    nums.Pairwise (· < ·) → (∀ k ∈ nums, off < k ∧ k - off ≤ t.leafNums.length) →
+    (nums.foldl (traceStep o) (t, off)).1.leafNums.length =
+      t.leafNums.length - (nums.filter (fun k => (t.findLeaf (k - off)).any (delP o))).length
+  | [], t, off, _, _, _ => by simp
+  | k :: rest, t, off, hN, hp, hb => by
+    have hp' := List.pairwise_cons.1 hp
+    have hk := hb k List.mem_cons_self
+    have hmem : k - off ∈ t.leafNums := (hN.mem _).2 (by omega)
+    simp only [List.foldl_cons]
+    cases hf : t.findLeaf (k - off) with
+    | none =>
+      have e : traceStep o (t, off) k = (t, off) := by simp only [traceStep, hf]
+      rw [e, traces_aux o rest t off hN hp'.2 (fun b hbr => hb b (List.mem_cons_of_mem _ hbr))]
+      simp [hf]
+    | some l =>
+      by_cases hd : delP o l = true
+      · have hd' : (o.keepall || o.keep.contains (traceLabel o (l.fields.word.getD []))) = false := by
+          simpa [delP] using hd
+        have e : traceStep o (t, off) k = (deleteTerminal t (k - off), off + 1) := by
+          simp only [traceStep, hf, hd']; rfl
+        have hN1 := deleteTerminal_numbered t (k - off) hN hmem
+        have hl1 := deleteTerminal_length t (k - off) hN hmem
+        rw [e, traces_aux o rest _ (off + 1) hN1 hp'.2 (by
+          intro b hbr
+          have h1 := hp'.1 b hbr
+          have h2 := hb b (List.mem_cons_of_mem _ hbr)
+          rw [hl1]; omega)]
+        have hfc : rest.filter (fun b => ((deleteTerminal t (k - off)).findLeaf (b - (off + 1))).any (delP o))
+            = rest.filter (fun b => (t.findLeaf (b - off)).any (delP o)) := by
+          apply List.filter_congr
+          intro b hbr
+          have h1 := hp'.1 b hbr
+          have e2 : b - (off + 1) = (b - off) - 1 := by omega
+          rw [e2, findLeaf_deleteTerminal_gt (k - off) (b - off) t hN.1 (by omega), Option.any_map]
+          simp
+        have hpos : 0 < t.leafNums.length := List.length_pos_of_mem hmem
+        rw [hfc, hl1]
+        simp only [List.filter_cons, hf, Option.any_some, hd, if_true, List.length_cons]
+        omega
+      · have hd0 : delP o l = false := by simpa using hd
+        have hd' : (o.keepall || o.keep.contains (traceLabel o (l.fields.word.getD []))) = true := by
+          unfold delP at hd0
+          cases hx : (o.keepall || o.keep.contains (traceLabel o (l.fields.word.getD [])))
+          · rw [hx] at hd0; cases hd0
+          · rfl
+        obtain ⟨g, e⟩ : ∃ g, traceStep o (t, off) k = (modifyLeaf (k - off) g t, off) :=
+          ⟨_, by simp only [traceStep, hf, hd']; rfl⟩
+        rw [e, traces_aux o rest _ off (modifyLeaf_numbered _ g t hN) hp'.2 (by
+          intro b hbr
+          rw [modifyLeaf_leafNums]
+          exact hb b (List.mem_cons_of_mem _ hbr))]
+        have hfc : rest.filter (fun b => ((modifyLeaf (k - off) g t).findLeaf (b - off)).any (delP o))
+            = rest.filter (fun b => (t.findLeaf (b - off)).any (delP o)) := by
+          apply List.filter_congr
+          intro b hbr
+          have h1 := hp'.1 b hbr
+          rw [findLeaf_modifyLeaf_ne _ _ _ t (by omega)]
+        rw [hfc, modifyLeaf_leafNums]
+        simp [hf, hd0]
+
+mutual
+theorem cleanLabels_leaves (o : TraceOpts) : (t : Tree) → (cleanLabels o t).leaves = t.leaves
+  | leaf n f => rfl
+  | node f ks => by
+    simp only [cleanLabels]
+    split
+    · rename_i h
+      rw [List.isEmpty_iff] at h
+      subst h; rfl
+    · simp only [leaves]; exact cleanLabelsL_leaves o ks
+theorem cleanLabelsL_leaves (o : TraceOpts) : (ks : List Tree) →
+    leavesL (cleanLabelsL o ks) = leavesL ks
+  | [] => rfl
+  | t :: ts => by simp only [cleanLabelsL, leavesL, cleanLabels_leaves o t, cleanLabelsL_leaves o ts]
+end
+
+theorem traces_count (o : TraceOpts) (t : Tree) (hN : Numbered t) :
+    (((t.terminals.filter fun l => l.fields.label == NONE_POS).map num).filter
+        (fun k => (t.findLeaf (k - 0)).any (delP o))).length = (tracePositions o t).length := by
+  unfold tracePositions
+  rw [List.filter_map, List.length_map, List.length_map, List.filter_filter]
+  congr 1
+  apply List.filter_congr
+  intro l hl
+  have := findLeaf_of_mem_nodup t l hN.nodup ((mem_terminals t l).1 hl)
+  simp only [Function.comp_apply, Nat.sub_zero, this, Option.any_some, delP]
+  rw [Bool.and_comm]
+
+/-! ### well-formedness after deleting tokens -/
+
+/-- no childless constituent below the root -/
+def belowOK : Tree → Bool
+  | node _ ks => noEmptyL ks
+  | leaf _ _ => true
+
+theorem belowOK_of_noEmpty (t : Tree) (h : t.noEmpty = true) : belowOK t = true := by
+  cases t with
+  | leaf n f => rfl
+  | node f ks => simp only [noEmpty, Bool.and_eq_true] at h; exact h.2
+
+theorem deleteTerminal_belowOK (t : Tree) (k : Nat) (h : belowOK t = true) :
+    belowOK (deleteTerminal t k) = true := by
+  cases t with
+  | leaf n f => rfl
+  | node f ks => exact delLeafL_noEmpty k ks h
+
+theorem deleteMany_belowOK : ∀ (nums : List Nat) (t : Tree) (off : Nat), belowOK t = true →
+    belowOK (nums.foldl (fun (acc : Tree × Nat) k => (deleteTerminal acc.1 (k - acc.2), acc.2 + 1)) (t, off)).1 = true
+  | [], _, _, h => h
+  | k :: rest, t, off, h => by
+    simp only [List.foldl_cons]
+    exact deleteMany_belowOK rest _ _ (deleteTerminal_belowOK t _ h)
+
+/-- a numbered tree with at least one token and no childless constituent below the root is well-formed -/
+theorem WF_of_numbered (t : Tree) (hN : Numbered t) (hb : belowOK t = true) (hpos : 0 < t.leafNums.length) :
+    WF t = true := by
+  rw [WF_iff]
+  have hne : t.leafNums ≠ [] := by intro e; rw [e] at hpos; simp at hpos
+  refine ⟨hN.1, ?_, by rw [← Nav.yield_eq]; exact hN.2, hne⟩
+  cases t with
+  | leaf n f => rfl
+  | node f ks =>
+    have : ks ≠ [] := by
+      intro e; subst e; exact hne rfl
+    have hks : ks.isEmpty = false := by simpa using this
+    simp only [noEmpty, hks, Bool.not_false, Bool.true_and]
+    exact hb
+
 end TT.Lemmas.Edit
